@@ -61,6 +61,18 @@ CLAIMED = {
          "contract-based deductive verification with a fork/join rule (govc WP over go/ssa, z3/cvc5)",
          "sync.WaitGroup by its trusted contract (A-WG, Go memory model); a closer that never returns makes Wait block (the statement's 'waits "
          "for all' still holds); panics inside user Close methods are outside the contract; non-nil injected closers is a precondition. " + TRUST),
+
+ "C08": ("proof",
+         "filterDependencies is verified for an arbitrary candidate list (any order, nil entries, duplicates) and arbitrary qualifier / "
+         "Primary / naming attributes: only non-nil candidates whose qualifier is requested survive ([qualifier-only], for single values "
+         "and every slice element), slices keep all of them once in input order, a single-valued point gets exactly one, a unique Primary "
+         "wins, otherwise a unique unnamed one, ties stay in the best class (loop invariant of the preference scan); fas.Filter (generic) is "
+         "verified as sound, order-preserving and complete. PostProcessProperties is verified to narrow EVERY component property "
+         "independently ([every-component-property-narrowed], [narrowing-frame]) and to report a required point without candidates.",
+         "DESIGN.md section 5 C08",
+         "contract-based deductive verification (govc WP over go/ssa, z3/cvc5)",
+         "TagArg.Find/Has are used through abstract trusted contracts (ArgIn/ArgHas1; their bodies are C19's subject); "
+         "reflectx.IsTypeImplement is trusted (A-REFLECT); Qualifier() is assumed pure (A-CALLBACK). " + TRUST),
 }
 
 NOT_APPLICABLE = {
